@@ -142,18 +142,26 @@ def corpus(CL, LL, rnd):
     log.units.append(LL.Unit("plain", 1, [(110, b"kk", b"e")]))
     log.next = 111
     out.append(("wrapper-v1-middle", CL.Cfg(group=0, buf=4096), log, LL.OffsetStore(),
-                [(CL.EV_START, 101), (CL.EV_PLAN, 0, 0), (CL.EV_PLAN, 0, 0), (CL.EV_PLAN, 0, 0)], 12))
+                [(CL.EV_START, 101)] + [(CL.EV_PLAN, 0, 0)] * 6, 12))
     # (b) messages larger than the buffer: growth x16 until the first message fits
     log = LL.PartitionLog(random.Random(12), n=0, first=7)
     log.units.append(LL.Unit("plain", 0, [(7, None, b"x" * 900)]))
     log.units.append(LL.Unit("plain", 1, [(9, None, b"y" * 3000)]))
     log.next = 10
     out.append(("bigger-than-buffer", CL.Cfg(group=0, buf=64), log, LL.OffsetStore(),
-                [(CL.EV_START, CL.OFFSET_EARLIEST), (CL.EV_PLAN, 0, 0), (CL.EV_PLAN, 0, 0)], 16))
+                [(CL.EV_START, CL.OFFSET_EARLIEST)] + [(CL.EV_PLAN, 0, 0)] * 6, 16))
     # (c) reply overlapping processing: slow processor, the next reply is parked
     log = LL.PartitionLog(random.Random(13), n=12, first=0)
     out.append(("reply-during-processing", CL.Cfg(group=1, acn=2, buf=4096), log, LL.OffsetStore(),
                 [(CL.EV_START, 0)], 40))
+    # (d) shutdown whose final commit fails (both attempts), then the application starts the consumer again (seeded C02-m6)
+    log = LL.PartitionLog(random.Random(14), n=0, first=0)
+    for o in range(8):
+        log.units.append(LL.Unit("plain", 0, [(o, None, b"m%d" % o)]))
+    log.next = 8
+    out.append(("failed-shutdown-then-restart", CL.Cfg(group=1, acn=0, acs=0, maxatt=0, buf=64), log, LL.OffsetStore(),
+                [(CL.EV_START, 0)] + [(CL.EV_PLAN, 0, 0)] * 3 + ["reply", (CL.EV_SHUTDOWN,), (CL.EV_COMMIT_FAIL, CL.FK_KAFKA),
+                 (CL.EV_FIRE_COMMIT_RETRY,), (CL.EV_COMMIT_FAIL, CL.FK_KAFKA), (CL.EV_START, CL.OFFSET_EARLIEST)], 0))
     return out
 
 
@@ -200,12 +208,21 @@ def run(ck):
     # --- 1. corpus
     for (name, cfg, log, store, first, steps) in corpus(CL, LL, rnd):
         events, drv, env = LL.honest_run(random.Random(5), cfg, log, store, steps, first=first, fault=0.0,
-                                         weights={CL.EV_STOP: 0, CL.EV_SHUTDOWN: 0, CL.EV_START: 0, "retain": 0})
+                                         drain=(40 if name == "failed-shutdown-then-restart" else 0),
+                                         weights={CL.EV_STOP: 0, CL.EV_SHUTDOWN: 0, CL.EV_START: 0, "retain": 0,
+                                                  CL.EV_PLAN: 0 if name != "reply-during-processing" else 6})
         ck.hist("corpus_" + name)
         add("corpus:" + name, cfg, events, drv, log)
         if name == "wrapper-v1-middle" and drv.delivered[:5] != [101, 102, 105, 106, 110]:
             ck.violation({"kind": "corpus wrapper-v1-middle: delivered %r, log holds 101 102 105 106 110 from 101" % drv.delivered[:8],
                           "cfg": cfg.line(), "events": jsonable(events), "replay_op": "events"})
+        if name == "failed-shutdown-then-restart":
+            k = max(i for i, e in enumerate(events) if e[0] == CL.EV_START)
+            steps_, _ = CL.split_steps(drv.trace)
+            after = [x for outs in steps_[k:] for o in outs if o[0] == CL.OUT_CALLPROC for x in o[2:]]
+            if after != list(range(8)):
+                ck.violation({"kind": "corpus failed-shutdown-then-restart: after a shutdown whose commit failed the restarted consumer was handed %r; the log holds 0..7"
+                                      % (after,), "cfg": cfg.line(), "events": jsonable(events), "replay_op": "events"})
         if name == "bigger-than-buffer" and drv.delivered[:2] != [7, 9]:
             ck.violation({"kind": "corpus bigger-than-buffer: delivered %r instead of [7, 9]" % drv.delivered[:4],
                           "cfg": cfg.line(), "events": jsonable(events), "replay_op": "events"})
